@@ -7,7 +7,7 @@ from . import register
 import findings
 
 def run_flow_check(pid, tier, own, closed_cases, real_cases, gen=0, gen_kw=None, weak_cases=(), nvar=4,
-                   liveness_below=20000, rule="", assumptions=(), extra_real=None):
+                   liveness_below=20000, rule="", assumptions=(), extra_real=None, post=None):
     chk = Check(pid, tier)
     chk.rule = rule
     chk.assumptions = list(assumptions)
@@ -119,6 +119,7 @@ def run_flow_check(pid, tier, own, closed_cases, real_cases, gen=0, gen_kw=None,
                                  % (c[0], c[1:], what, trace[-5:]))
     chk.extra["exhaustive"] = False
     chk.extra["instances_closed"] = ["%s%s" % (c[0], c[1:]) for c in closed_cases]
+    if post: post(chk)
     return chk.finish()
 
 QUICK_CLOSED = [("Z1", dict(n=2)), ("Z2", dict(n=2)), ("Z3", dict(n=2)), ("Z4", dict(n=1)), ("Z5", dict(n=3, m=1)),
@@ -126,7 +127,8 @@ QUICK_CLOSED = [("Z1", dict(n=2)), ("Z2", dict(n=2)), ("Z3", dict(n=2)), ("Z4", 
                 ("Z14", dict(n=3)), ("Z15", {}), ("Z16", dict(n=2)), ("Z17", dict(n=3)), ("Z18", dict(n=2)), ("Z19", dict(n=2)),
                 ("Z5c", dict(n=3, m=1)), ("Z5c", dict(n=2, m=0)),
                 # empty streams: no file source item, no parameter value, one of two ports empty, a leaf driver with nothing to do
-                ("Z1", dict(n=0)), ("Z3", dict(n=0)), ("Z5", dict(n=3, m=0)), ("Z6", dict(n=0)), ("Z9", dict(n=0)), ("Z16", dict(n=0))]
+                ("Z1", dict(n=0)), ("Z3", dict(n=0)), ("Z5", dict(n=3, m=0)), ("Z6", dict(n=0)), ("Z9", dict(n=0)), ("Z16", dict(n=0)),
+                ("Z20", dict(n=3, buf=1))]
 THOROUGH_CLOSED = QUICK_CLOSED + [("Z1", dict(n=3)), ("Z1", dict(n=3, buf=2)), ("Z2", dict(n=2, buf=2)), ("Z3", dict(n=2, buf=2, mx=1)),
                                   ("Z4", dict(n=2)), ("Z9", dict(n=2)), ("Z13", dict(n=1)), ("Z5b", dict(n=3, m=1)),
                                   ("Z7", dict(n=2, mx=1)), ("Z10", dict(n=4, buf=2, mx=2)), ("Z6", dict(n=3))]
@@ -164,8 +166,12 @@ def check_C05(tier):
               ("Z1", dict(n=3), dict(ctl={"a.extra": "side.log sub/dir/side2.log"})),
               # an extra file that cannot be moved out (a directory of the same name is in the way)
               ("Z1", dict(n=2), dict(ctl={"b.extra": "report"}, mkdirs=["report"])),
-              ("Z13", dict(n=4, mx=3)), ("Z13", dict(n=3, mx=4))]
-    return run_flow_check("C05", tier, {"C05"},
+              ("Z13", dict(n=4, mx=3)), ("Z13", dict(n=3, mx=4)),
+              ("Z20", dict(n=10, buf=2)), ("Z20", dict(n=6, buf=1)), ("Z20", dict(n=12, buf=3, mx=4))]
+    def post(chk):
+        from .slots import shared_output_scenario
+        shared_output_scenario(chk, what="two tasks mapping to the same output file compete for one slot: Run never returned")
+    return run_flow_check("C05", tier, {"C05"}, post=post,
         closed_cases=THOROUGH_CLOSED if tier == "thorough" else QUICK_CLOSED,
         real_cases=REAL + extras, gen=40 if tier == "thorough" else 10, nvar=8 if tier == "thorough" else 4,
         gen_kw=dict(allow_leaf=True),
